@@ -487,6 +487,27 @@ func c06Locality(c *Ctx, un, hun *ssa.Function, raw *ssa.Parameter, frame *ssa.S
 						bad = append(bad, p.Pos(r2.Pos())+": len(rawData) is used outside a comparison: "+r2.String())
 						continue
 					}
+					// len(rawData) - n (or n - len(rawData)) whose only use is an ordered comparison with 0
+					if cmp.Op == token.SUB && (cmp.X == frame.High || cmp.Y == frame.High) {
+						okDiff := true
+						nuse := 0
+						for _, r3 := range *cmp.Referrers() {
+							if _, isDbg := r3.(*ssa.DebugRef); isDbg {
+								continue
+							}
+							c3, isCmp := r3.(*ssa.BinOp)
+							if !isCmp || !(c3.Op == token.LSS || c3.Op == token.GTR || c3.Op == token.LEQ || c3.Op == token.GEQ) || !(isConstInt(c3.X, 0) || isConstInt(c3.Y, 0)) {
+								okDiff = false
+							}
+							nuse++
+						}
+						if okDiff && nuse > 0 {
+							ncmp++
+						} else {
+							bad = append(bad, p.Pos(cmp.Pos())+": the difference between len(rawData) and the frame size is used other than in an ordered comparison with 0")
+						}
+						continue
+					}
 					other := cmp.Y
 					if other == ssa.Value(x) {
 						other = cmp.X
